@@ -60,6 +60,9 @@ class C01Facade(Harness):
             x["w"] = cx.reals("w", N)
             if cx.sym:
                 cx.assume(*[w >= 0 for w in x["w"]])
+        if cx.sym and p["spec"] in ("fwb", "fixed_range", "edges"):
+            cx.define("gapped", z3.BoolVal(False))
+            cx.define("small_gap", z3.BoolVal(False))
         if p["spec"] in ("fwb", "fixed_range"):
             x["t"] = cx.pyint("t", -3, 3)
         elif p["spec"] == "edges":
